@@ -58,6 +58,7 @@ struct World {
 
 void MJob::Call() noexcept {
   start = Stamp();
+  VF_R(payload, "C04");
   if (payload != id + 1) {
     bad_payload.fetch_add(1, kRlx);
   }
@@ -69,6 +70,7 @@ void MJob::Call() noexcept {
   while (in > mx && !w->max_inside.compare_exchange_weak(mx, in, kRlx)) {
   }
   if (w->serial) {
+    VF_W(w->plain_counter, "C04,C07");
     w->plain_counter++;  // plain read-modify-write
   }
   u32 pos = w->nlog.fetch_add(1, kRlx);
@@ -78,6 +80,7 @@ void MJob::Call() noexcept {
   Jitter(work);
   if (child != nullptr) {
     child->submitted = true;
+    VF_W(child->payload, "C04");
     child->payload = child->id + 1;
     child->sub_call = Stamp();
     child_to->Submit(*child);
@@ -161,6 +164,7 @@ void RunSubmitters(World& w, const Plan& p, yaclib::IExecutor& target, yaclib::F
       for (auto& j : w.jobs) {
         if (j.submitter == s) {
           j.submitted = true;
+          VF_W(j.payload, "C04");
           j.payload = j.id + 1;
           j.sub_call = Stamp();
           target.Submit(j);
@@ -449,6 +453,7 @@ void SimpleExecCase(Ctx& ctx, int kind) {
   for (auto& j : w.jobs) {
     if (j.submitter >= 0) {
       j.submitted = true;
+      VF_W(j.payload, "C04");
       j.payload = j.id + 1;
       j.sub_call = Stamp();
       e->Submit(j);
